@@ -1153,6 +1153,10 @@ func (u *UtxoNursery) waitForTimeoutConf(baby *babyOutput,
 
 	// TODO(conner): add retry utxnLogic?
 
+	// Take note of the last height that was handed to graduateClass before
+	// we move the output, see below.
+	bestHeight := atomic.LoadUint32(&u.bestHeight)
+
 	err := u.cfg.Store.CribToKinder(baby)
 	if err != nil {
 		utxnLog.Errorf("Unable to move htlc output from "+
@@ -1162,6 +1166,29 @@ func (u *UtxoNursery) waitForTimeoutConf(baby *babyOutput,
 
 	utxnLog.Infof("Htlc output %v promoted to "+
 		"kindergarten", baby.OutPoint())
+
+	// The store files the output under the height at which its CSV delay
+	// expires. If we only get to process the confirmation after that height
+	// has passed (e.g. the timeout tx confirmed while we were offline), no
+	// block epoch will graduate that class anymore, and the output would
+	// sit there until the next restart replays the past heights. Similar
+	// to the late registration of preschool outputs, we handle this by
+	// offering the already mature output to the sweeper right away.
+	maturityHeight := baby.ConfHeight() + baby.BlocksToMaturity()
+	if maturityHeight > bestHeight {
+		return
+	}
+
+	utxnLog.Debugf("Late promotion for htlc output=%v detected: "+
+		"class_height=%v, best_height=%v", baby.OutPoint(),
+		maturityHeight, bestHeight)
+
+	err = u.sweepMatureOutputs(maturityHeight, []kidOutput{baby.kidOutput})
+	if err != nil {
+		utxnLog.Errorf("Failed to sweep late kindergarten output %v "+
+			"at height=%d: %v", baby.OutPoint(), maturityHeight,
+			err)
+	}
 }
 
 // registerPreschoolConf is responsible for subscribing to the confirmation of
